@@ -293,6 +293,7 @@ func init() {
 		runs = append(runs, runsOf(lifeRuns(tier), o, mf)...)
 		runs = append(runs, modSelfStartRun(o, mf, d-1, b, m))
 		runs = append(runs, twoCreatesRun(o, mf, d-2, b-2, m))
+		runs = append(runs, RunSpec{Name: "many-contexts-due-in-one-block", Sc: scManyContexts(paramSet("0.1", "0.001"), 4, 3, 2), Oracles: o, Mon: mf, Conform: 8})
 		return runs
 	}})
 	register(&CheckSpec{Prop: "C11", Runs: func(tier string) []RunSpec {
@@ -347,6 +348,7 @@ func init() {
 		// the owning module starts a paused context again from inside the response callback of its failed batch
 		runs = append(runs, modSelfStartRun(o, MonFlags{CB: true}, d, b+1, m))
 		runs = append(runs, twoCreatesRun(o, MonFlags{CB: true}, d-1, b-1, m))
+		runs = append(runs, RunSpec{Name: "batch-counter-255", Sc: scCounter255(paramSet("0.1", "0.001"), 7, 5, 2), Oracles: o, Mon: MonFlags{CB: true}})
 		return runs
 	}})
 	register(&CheckSpec{Prop: "C13", Runs: func(tier string) []RunSpec {
@@ -417,6 +419,7 @@ func init() {
 		runs = append(runs, RunSpec{Name: "mod-reentrant", Sc: scModReentrant(defaultParams(), []Template{tMod1, tMod2, tModPoor},
 			AlphaOpts{RespKinds: []string{"ok", "bad"}, ModOps: []string{"mpause", "mstart"}}, d, b, m), Oracles: []Oracle{oracleC16{}}, Mon: MonFlags{Kill: true}})
 		runs = append(runs, twoCreatesRun([]Oracle{oracleC16{}}, MonFlags{Kill: true}, d-1, b-1, m))
+		runs = append(runs, RunSpec{Name: "batch-counter-255", Sc: scCounter255(paramSet("0.1", "0.001"), 7, 5, 2), Oracles: []Oracle{oracleC16{}}, Mon: MonFlags{Kill: true}})
 		return runs
 	}})
 	register(&CheckSpec{Prop: "C05", Runs: func(tier string) []RunSpec {
@@ -488,6 +491,7 @@ func init() {
 			}(), Oracles: o, Post: queryPost},
 			{Name: "mod-queries", Sc: scMod(defaultParams(), []Template{tMod1, tModPoor}, AlphaOpts{RespKinds: []string{"ok"}, ModOps: []string{"mpause", "mkill"}}, 6+d, 4, 2), Oracles: o, Post: queryPost},
 			{Name: "msvc-queries", Sc: scMsvc(defaultParams(), 4+d, 3, 3), Oracles: o, Post: queryPost},
+			{Name: "many-bindings-queries", Sc: scManyBindings(defaultParams(), 2, 1, 2), Oracles: o, Post: queryPost, Conform: 4},
 			{Name: "life-queries-restart", Sc: restartable(scLife(defaultParams(), []Template{tRep2, tLong}, lo, 6+d, 4, 2)), Oracles: o, Post: queryPost},
 			{Name: "fx-queries", Sc: scFX(defaultParams(), "fusd1v", []Template{tFxOne, tFxRep}, AlphaOpts{RespKinds: []string{"ok"}, Withdraw: []string{"O1:"},
 				BindOps: []Action{actUpdate("a", "P1", "O1", 0, "fcent150", 0), actUpdate("a", "P2", "O2", 0, "fkilo1h", 0)}}, fxSpec(), 5+d, 3, 2), Oracles: o, Post: queryPost},
@@ -519,6 +523,7 @@ func init() {
 			{Name: "fees-self-export-points", Sc: scFeesSelf(paramSet("0.1", "0.001"), 5+d, 3, 3), Oracles: o, Post: genesisPost},
 			{Name: "names-export-points", Sc: scNames(defaultParams(), 5+d, 3, 4), Oracles: o, Post: genesisPost},
 			{Name: "mod-export-points", Sc: scMod(defaultParams(), []Template{tMod1, tModPoor}, AlphaOpts{RespKinds: []string{"ok"}, ModOps: []string{"mpause", "mkill"}}, 6+d, 4, 2), Oracles: o, Post: genesisPost},
+			{Name: "price-zero-export-points", Sc: scPrice(paramSet("0.1", "0.001"), "p1v", "p0", []Template{tOne, tRep2}, AlphaOpts{RespKinds: []string{"ok"}}, 4+d, 3, 2), Oracles: o, Post: genesisPost},
 			{Name: "msvc-export-points", Sc: scMsvc(defaultParams(), 4+d, 3, 3), Oracles: o, Post: genesisPost},
 			{Name: "life-restart-export-points", Sc: restartable(scLife(defaultParams(), []Template{tRep2, tLong}, mainO, 6+d, 4, 2)), Oracles: o, Post: genesisPost},
 			{Name: "fx-export-points", Sc: scFX(defaultParams(), "fusd1v", []Template{tFxOne, tFxRep}, AlphaOpts{RespKinds: []string{"ok"}, CtxOps: []string{"pause"}, Withdraw: []string{"O1:"},
